@@ -46,7 +46,7 @@ def native_sweep(script, what, quick, thorough):
 REGISTRY = {
     'C10': dict(module='contracts.C10', level='proof',
                 native=native_sweep('c10_farfield.py', 'independent radiation integral (current moments at pulse points, image currents), dBi vs V/m per polarisation from the printed tables, power sum, sqrt(power)/distance scaling, 360-degree periodicity, zenith independence', 25, 800),
-                undecided=['the radiation sum is decided on arrays of 1 zenith x 2 azimuths x 2 pulses only (shape-bounded, values symbolic); other shapes, the 2 % agreement with the exact integral over straight half-segments and the real-ground branch: native sweep only',
+                undecided=['the radiation sum is decided on arrays of (zenith x azimuth x pulses) = 1x2x2, 2x1x1 and 1x1x3 only (shape-bounded, values symbolic); other shapes, the 2 % agreement with the exact integral over straight half-segments and the real-ground branch: native sweep only',
                            '360-degree periodicity and zenith/azimuth independence (properties of cos/sin, uninterpreted here) -- native sweep only'],
                 trusted=['np.log / np.sqrt / cos / sin as uninterpreted functions with the listed axioms; the tail slice is executed for one direction (1x1 arrays): the statements are elementwise numpy operations',
                          'numpy semantics as modelled on small object arrays: broadcasting, basic indexing, boolean-mask row stores, np.tile / repeat / reshape / sum(axis) / meshgrid / .T (executed by numpy itself on arrays of symbolic objects)',
